@@ -64,7 +64,7 @@ def jobs_for(prop, tier):
         if quick:
             return storage_jobs([(D, 0), (R, 0)])
         return storage_jobs([(c, 0) for c in ALL_CFGS], threads=2)
-    if prop == 'C15':
+    if prop in ('C15', 'C05'):
         return [Job('macros', D, 0, build.build_macros_unit, threads=4)]
     if prop == 'C19':
         if quick:
